@@ -121,6 +121,8 @@ func init() {
 		}}
 	replayFamilies[modPath+".(*sortNode).Finish"] = &replayFamily{pkgDir: ".", testFile: "clover_replay_test.go", testName: "TestVerifReplaySortFinish",
 		build: func(r *Result, vals map[string]string) (interface{}, bool) { return "fixed scenario", true }}
+	replayFamilies[modPath+".(*DB).replaceDocs$1"] = &replayFamily{pkgDir: ".", testFile: "clover_replay_test.go", testName: "TestVerifReplayBulkUnderCursor",
+		build: func(r *Result, vals map[string]string) (interface{}, bool) { return "fixed scenario", true }}
 	replayFamilies[modPath+"/internal.compareNumbers"] = cmp
 	replayFamilies[modPath+"/internal.Compare"] = cmp
 	rangeOf := func(vals map[string]string, p string) (map[string]interface{}, bool) {
